@@ -467,15 +467,25 @@ fn failure_violation(property: &str, payload: &str) -> Violation {
     let roles: Vec<String> = simsync::sim::roles().iter().map(|(t, r)| format!("task{}={}", t, r.name())).collect();
     let event = exec::seq();
     if payload.starts_with("deadlock!") {
-        let prop = if property == "C12" || property == "C13" || property == "C15" { property } else { "C18" };
-        // which roles are blocked: parse "task N" ids out of shuttle's message
+        // Two very different things end as "nothing runnable": a cycle of lock / queue waits that
+        // involves a background thread (C18), and an acknowledgement that never resolves while the
+        // worker, the sweeper and the consumer are all parked idle in recv() (C12; C13 when the
+        // scenario called shutdown).
+        let idle = |r: simsync::sim::Role| simsync::sim::chan_of(r).map(|c| c.recv_waiting.get() > 0 || c.rx_closed.get()).unwrap_or(true);
+        let background_idle = idle(simsync::sim::Role::Worker) && idle(simsync::sim::Role::Sweeper) && idle(simsync::sim::Role::Consumer);
+        let shutdown_in_run = exec::shutdown_was_called();
+        let (prop, class) = if background_idle {
+            (if property == "C13" && shutdown_in_run { "C13" } else { "C12" }, "acknowledgement-never-resolves")
+        } else {
+            (if property == "C13" && shutdown_in_run { "C13" } else { "C18" }, "deadlock")
+        };
         let mut blocked: BTreeSet<String> = BTreeSet::new();
         let roles_map = simsync::sim::roles();
         // shuttle prints each blocked task as "<name> (task <label>(<id>)[, pending future])"
         let mut rest = payload;
         while let Some(pos) = rest.find("(task ") {
             rest = &rest[pos + 6..];
-            let end = rest.find(|c| c == ')' ).unwrap_or(rest.len());
+            let end = rest.find(|c| c == ')').unwrap_or(rest.len());
             let inner = &rest[..end];
             let num: String = match inner.rfind('(') {
                 Some(p) => inner[p + 1..].chars().take_while(|c| c.is_ascii_digit()).collect(),
@@ -489,13 +499,13 @@ fn failure_violation(property: &str, payload: &str) -> Violation {
         let blocked: Vec<String> = blocked.into_iter().collect();
         return Violation {
             property: prop.to_string(),
-            signature: format!("{}/deadlock/blocked={}", prop, blocked.join("+")),
+            signature: format!("{}/{}/blocked={}", prop, class, blocked.join("+")),
             message: format!("{} [{}]", payload.lines().next().unwrap_or(""), roles.join(",")),
             event,
         };
     }
     if payload.starts_with("exceeded max_steps") {
-        let prop = if property == "C12" || property == "C13" || property == "C15" { property } else { "C18" };
+        let prop = "C18";
         return Violation {
             property: prop.to_string(),
             signature: format!("{}/step-budget", prop),
